@@ -3,6 +3,7 @@
 # every registered check against it: none may print VIOLATION.  /repo itself is not touched.
 V=$(cd "$(dirname "$0")/.." && pwd); R=${VP_RUN_REPO:-/repo}
 cd $V
+[ -x build/model_drv ] || VERIF_REPO=$R bash tools/setup.sh >/dev/null 2>&1
 diffs=${@:-$(ls harmless/*.diff)}
 rc=0
 for d in $diffs; do
